@@ -41,7 +41,10 @@ LEVEL_TEXT = (
     "restarts, kills before/after the write, where EACH action has its own environment: selection, prematch, finalizer requirement "
     "may change with every edit; the state reached converges under finitely-failing scripts), accumulated_change (cause from "
     "last-handled and final essence only, at most one closing pass; the old/new/diff kwargs are checked by the oracle only), "
-    "skip_path_purges, blind_quiescent, free_quiescent. PARTIAL, each with the exact guard in its statement and a proved witness "
+    "skip_path_purges, closing_ignores_unselected_records + pass_ignores_unselected_records (the pass after which every SELECTED "
+    "handler has finished closes the cycle and purges every record whatever else the object carries, e.g. the unfinished record, same "
+    "purpose, of a handler de-selected while retrying — the states of seed C03d, instance deselected_unfinished_instance; final_state "
+    "and converges have no hypothesis excluding them), blind_quiescent, free_quiescent. PARTIAL, each with the exact guard in its statement and a proved witness "
     "that the guard is needed, replayed on the real code through the corpus: final_state / converges(_finitely_failing) need "
     "`prematch` — blind_witness (OPEN C03-F2) — and `marked = false` — for a marked object held only by a foreign finalizer "
     "free_witness (OPEN C03-N4); completed_against_final_partial under 'the handler has not finished yet when the final state "
@@ -78,7 +81,8 @@ THEOREMS = [("Kopf.Props.C03", "Kopf.C03." + n) for n in [
     "open_pass_leaves_event", "sleeping_handler_woken_instance", "invoked_once_after_last_change", "restart_safe",
     "accumulated_change", "blind_quiescent", "blind_witness", "free_quiescent", "free_witness", "shared_id_witness",
     "carried_none_partial", "carried_ops_leaves_event", "carried_noop_witness", "carried_noop_blocks_release_witness",
-    "inconsistent_empty_partial", "inconsistent_nonempty_witness", "skip_path_purges", "terminates_stable_partial", "unstable_filters_witness", "filtersStable_of_essence"]]
+    "inconsistent_empty_partial", "inconsistent_nonempty_witness", "skip_path_purges", "closing_ignores_unselected_records",
+    "pass_ignores_unselected_records", "deselected_unfinished_instance", "terminates_stable_partial", "unstable_filters_witness", "filtersStable_of_essence"]]
 RULE = ("seeded histories of one object: 1-4 change handlers (create/update/resume/delete, label filters, retries/timeout/backoff/"
         "errors, scripts with finitely many temporary/arbitrary/permanent failures then ok, handlers that take time (8 %), ONE id "
         "registered for two causes (6 %), three lifecycles), 0-6 external ops (spec edits, reverts, label flips, annotation edits, "
@@ -89,7 +93,11 @@ RULE = ("seeded histories of one object: 1-4 change handlers (create/update/resu
         "with an external edit slipped between merge-patch and JSON-patch (10 %; in the constant variant the edit fulfils the "
         "function, which is then carried as a no-op), a foreign finalizer on the object (7 %, let go at the end in half of them), "
         "objects existing before the first start, objects whose essence is empty ({} / empty spec / status only); then a silent "
-        "tail long enough for every scripted failure. One case = one history; distinct & non-trivial = distinct (outstanding "
+        "tail long enough for every scripted failure. A de-selection family (gen_deselect, a quarter of the budget): 2-3 update "
+        "handlers with field= filters on different fields (the victim label-filtered in 20 %), the victim retrying/sleeping when "
+        "the next change reverts its field and changes another (another handler of the SAME cause kind is selected), stop / kill / "
+        "kill before-after the PATCH with the change made during the downtime or around it, then the other field / the victim's "
+        "field / both change again or nothing does (histograms family_class, unselected_unfinished_same_purpose). One case = one history; distinct & non-trivial = distinct (outstanding "
         "change, restart kinds, tail pass shapes, final classification) with at least one handler-reason pass or restart. Besides, "
         "the corpus holds one history OUTSIDE the quantifier (`guard_witness`: a deletion handler whose filter reads the framework's "
         "own finalizer): never judged by the oracle, its cycles are compared turn by turn with the Lean instance of "
@@ -100,7 +108,10 @@ TRUSTED = ["harness/sim (virtual-time loop, fake API server, scripted handlers, 
            "last-handled vs essence taken from kopf's own diff (C04's subject)"]
 ASSUMPTIONS = ["GUARD FiltersStable: selection / prematch / finalizer requirement / handler behaviour do not depend on what the "
                "framework itself writes (records, last-handled, touch-dummy, finalizer, status.<handler>); generated filters are "
-               "label filters (no when=/field= filters: they are C15's; a filter reading status.<handler> is outside the guard); "
+               "label filters and field= filters on spec fields of update handlers (which handler a field= filter selects for a "
+               "change is C15's subject: here the oracle reads it off the docs — the field differs between last-handled and final "
+               "state — and the model takes the implementation's `match` as input; no when= filters; a filter reading "
+               "status.<handler> is outside the guard); "
                "without the guard nothing is claimed (Props: terminates_stable)",
                "'finitely many failures' = FinitelyFailing: ∃ N, every invocation with retry ≥ N is final (the generated scripts: "
                "finitely many temporary/arbitrary/permanent failures, then success). terminates_finitely_failing gives quiescence "
@@ -111,7 +122,7 @@ ASSUMPTIONS = ["GUARD FiltersStable: selection / prematch / finalizer requiremen
                "as ONE accumulated update when it matches again); leftover progress RECORDS on it are the finding C03-F2. "
                "Likewise for an object in deletion that only others hold (C03-N4)",
                "progress records live in annotations (the default storage); StatusProgressStorage / SmartProgressStorage and "
-               "sub-handlers, when=/field= filters are not generated (C16's, C13's, C15's subjects)",
+               "sub-handlers, when= filters, field= filters with value=/old=/new= are not generated (C16's, C13's, C15's subjects)",
                "`memory.remaining_patch` (transformation functions carried over after a rejected JSON-patch): how a patch comes to "
                "be carried is C08's transport and not in the model; what a cycle that STARTS with one does is (`loopStepC`: handlers "
                "skipped; re-sent, or nothing to send = OPEN finding C03-N2) and is tied when it is the tail's first cycle and no "
@@ -220,7 +231,41 @@ def py_matches(h: dict, body: dict) -> bool:
                 return False
         elif labels.get(k) != v:
             return False
+    fld = h.get("opts", {}).get("field")
+    if fld and py_field(body, fld) is _ABSENT:
+        return False        # a field filter (no value given) asks for the field to be there
     return True
+
+
+def kid(h: dict) -> str:
+    """The id under which the framework knows (and records) the handler: a `field=` filter is appended to it
+    (`@on.update(field='spec.x', id='hx')` is `hx/spec.x`; docs: handler ids)."""
+    fld = h.get("opts", {}).get("field")
+    return f"{h['id']}/{fld}" if fld else h["id"]
+
+
+_ABSENT = object()
+
+
+def py_field(ess: Any, path: str) -> Any:
+    cur = ess
+    for part in path.split("."):
+        if not isinstance(cur, dict) or part not in cur:
+            return _ABSENT
+        cur = cur[part]
+    return cur
+
+
+def py_selected_for_change(h: dict, old: dict | None, new: dict) -> bool:
+    """Is the handler selected for the outstanding change old → new, as far as its `field=` filter goes (docs: an
+    update handler with a field is called when THAT field changed; for a creation the field has to be there)."""
+    fld = h.get("opts", {}).get("field")
+    if not fld:
+        return True
+    if old is None:
+        return py_field(new, fld) is not _ABSENT
+    a, b = py_field(old, fld), py_field(new, fld)
+    return (a is not _ABSENT or b is not _ABSENT) and (a is _ABSENT or b is _ABSENT or a != b)
 
 
 def own_record(body: dict, hid: str) -> dict | None:
@@ -240,8 +285,8 @@ def _changing(sc: dict) -> list[dict]:
 def _all_ids(sc: dict) -> list[str]:
     out = []
     for h in _changing(sc):
-        out.append(h["id"])
-        out += [f"{h['id']}/{s['id']}" for s in h.get("sub", [])]
+        out.append(kid(h))
+        out += [f"{kid(h)}/{s['id']}" for s in h.get("sub", [])]
     return out
 
 
@@ -436,12 +481,12 @@ def oracle(ctx: Ctx, sc: dict, tr: dict) -> dict:
             if h["kind"] != "delete" or h.get("opts", {}).get("optional") or not py_matches(h, lb):
                 continue        # optional deletion handlers run only if the object happens to be still held
             ev = [c for c in tr["cycles"] if c["uid"] == f.uid and c.get("pcc") and c["body"]["metadata"].get("deletionTimestamp")
-                  and c["pcc"]["reason"] == "delete" and (c["pcc"].get("outcomes") or {}).get(h["id"], {}).get("final")]
+                  and c["pcc"]["reason"] == "delete" and (c["pcc"].get("outcomes") or {}).get(kid(h), {}).get("final")]
             if ev:
                 continue
             good = False
             first = next((c for c in tr["cycles"] if c["uid"] == f.uid and c.get("pcc") and c["pcc"]["reason"] == "delete"), None)
-            rec0 = own_record(first["body"], h["id"]) if first else None
+            rec0 = own_record(first["body"], kid(h)) if first else None
             if shared_with(h) and rec0 and (rec0.get("success") or rec0.get("failure")):
                 fail(f"the object was released although its deletion handler {h['id']} was never called: the id is also registered for "
                      f"{shared_with(h)}, whose finished record was taken for the deletion handler's",
@@ -449,7 +494,7 @@ def oracle(ctx: Ctx, sc: dict, tr: dict) -> dict:
             else:
                 fail(f"the object was released although its deletion handler {h['id']} never reached a final outcome",
                      {**rep, "last_body": lb}, {"site": "process_resource_causes", "shape": "released before the deletion handlers completed"},
-                     about=("deletion", h["id"]))
+                     about=("deletion", kid(h)))
         return good
 
     def held_while_marked() -> bool:
@@ -566,15 +611,17 @@ def oracle(ctx: Ctx, sc: dict, tr: dict) -> dict:
             outstanding = "create" if base0 is None else ("update" if base0 != f.ess else None)
             out["outstanding"] = outstanding
             for h in _changing(sc):
-                if h["kind"] != outstanding or not py_matches(h, f.final):
+                if h["kind"] != outstanding or not py_matches(h, f.final) or not py_selected_for_change(h, base0, f.ess):
                     continue
-                hid = h["id"]
+                hid = kid(h)
+                if h.get("opts", {}).get("field"):
+                    out["field_selected"] = out.get("field_selected", 0) + 1
                 ev = [c for c in f.fin_cycles if c.get("pcc") and c["pcc"]["reason"] == outstanding
                       and (c["pcc"].get("outcomes") or {}).get(hid, {}).get("final")]
                 if ev:
                     for c in ev:
                         for call in _calls_of(tr, c):
-                            if call["id"] == hid and call.get("body") is not None and py_essence(call["body"]) != f.ess:
+                            if call["id"] == h["id"] and call.get("body") is not None and py_essence(call["body"]) != f.ess:
                                 fail(f"handler {hid} completed in a pass on the final state but was given another body",
                                      {**rep, "call": call}, {"site": "execute_handler_once", "shape": "handler body differs from the pass body"})
                     continue
@@ -601,7 +648,7 @@ def oracle(ctx: Ctx, sc: dict, tr: dict) -> dict:
         mine = [c for c in tr["cycles"] if c["uid"] == f.uid and c["inc"] == f.last_inc and c.get("pcc")
                 and not c["body"]["metadata"].get("deletionTimestamp")]
         for h in _changing(sc):
-            hid = h["id"]
+            hid = kid(h)
             if h["kind"] != "resume" or not py_matches(h, f.final):
                 continue
             sel = [c for c in mine if hid in c["pcc"]["selected"]]
@@ -670,7 +717,12 @@ def accumulated(ctx: Ctx, sc: dict, tr: dict, out: dict) -> None:
                 break
             for call in _calls_of(tr, c, "update"):
                 if True:
-                    if call.get("old") != base_up or call.get("new") != ess_up:
+                    # a handler with a `field=` filter is given that field's old and new values (docs: kwargs old/new/diff)
+                    fld = next((h.get("opts", {}).get("field") for h in sc["handlers"] if h["id"] == call["id"] and h["kind"] == "update"), None)
+                    want_old, want_new = base_up, ess_up
+                    if fld:
+                        want_old, want_new = (None if v is _ABSENT else v for v in (py_field(base_up, fld), py_field(ess_up, fld)))
+                    if call.get("old") != want_old or call.get("new") != want_new:
                         ctx.oracle_fail("update handler after a downtime did not get old=last-handled, new=state at start",
                                         {"scenario": sc, "call": {k: call.get(k) for k in ("id", "t", "old", "new")}},
                                         {"site": "detect_changing_cause", "shape": "downtime edits not seen as one accumulated change"})
@@ -799,7 +851,7 @@ def abstract_tail(sc: dict, tr: dict, cap: int) -> tuple[list | None, Any]:
             t_trail = cycles.pop()["t0"]
     if not cycles:
         return None, "no-tail-pass"
-    if every_patch and any(dummy(c) and not [i for i in c["invoked"] if i["id"] in [h["id"] for h in _changing(sc)]] for c in cycles):
+    if every_patch and any(dummy(c) and not [i for i in c["invoked"] if (i.get("hid") or i["id"]) in [kid(h) for h in _changing(sc)]] for c in cycles):
         # not modelled (same gap as `const-patch+keepalive`): a cycle on a body that carries the touch-dummy (left by a
         # touch whose operator was killed, or by a keepalive round) in which no handler runs; the constant patch then
         # goes out together with the touch-dummy cleanup, which DOES change the object: one more PATCH + echo
@@ -832,7 +884,9 @@ def abstract_tail(sc: dict, tr: dict, cap: int) -> tuple[list | None, Any]:
         return None, "cycle-error"
     if any(call.get("t_end", call["t"]) > call["t"] for c in cycles for call in _calls_of(tr, c)):
         return None, "handler-takes-time"      # the model's pass has one clock reading (ASSUMPTIONS)
-    decls = c14._decls(sc)
+    # the framework's ids (a field filter is part of the id); the gates are those of the registering decorator
+    byid = {h["id"]: kid(h) for h in sc["handlers"]}
+    decls = [{**d, "id": byid.get(d["id"], d["id"])} for d in c14._decls(sc)]
     owned = [d["id"] for d in decls]
     who = f"op#{f.last_inc}"      # the session identity of the incarnation that lives through the tail
     ends = [c["t0"] for c in cycles[1:]] + [t_trail]
@@ -847,7 +901,7 @@ def abstract_tail(sc: dict, tr: dict, cap: int) -> tuple[list | None, Any]:
         ft = fin_turn(c)
         if p is not None and ("P_after" not in p or "error" in (p["P_after"] or {})):
             return None, "no-P_after"
-        inv = [[i["id"], i["retry"]] for i in c["invoked"] if i["id"] in owned]
+        inv = [[i.get("hid") or i["id"], i["retry"]] for i in c["invoked"] if (i.get("hid") or i["id"]) in owned]
         if p is not None:
             for hid, r in inv:
                 o = (p.get("outcomes") or {}).get(hid)
@@ -1138,6 +1192,134 @@ def gen_scenario(rng: Any, i: int) -> dict:
     return sc
 
 
+DESELECT_FIELDS = ["x", "y", "z"]
+
+
+def gen_deselect(rng: Any, i: int) -> dict:
+    """The SELECTED set changes inside an open cycle while the cause kind stays the same (seed C03d's class): update
+    handlers with `field=` filters on different fields (the victim sometimes with a label filter instead). The victim
+    fails (finitely often) and is retrying / sleeping — its unfinished record is on the object — when the next change
+    reverts its field (flips its label) and changes another field: another handler of the SAME cause kind is selected,
+    the victim is not. Around it: graceful stop / kill / kill right before or after the next PATCH, with the change
+    made during the downtime or before / after it; 2 or 3 handlers; afterwards the other field changes again (the
+    handler has to run AGAIN, against the final state), the victim's field changes again (selected again), both, or
+    nothing; then silence."""
+    n = rng.choice([2, 2, 3, 3])
+    fields = DESELECT_FIELDS[:n]
+    by_label = rng.random() < 0.2
+    long_d = rng.choice([4.0, 8.0, 8.0, 64.0, 640.0])
+    fail_time = 0.0
+    handlers: list[dict] = []
+    for k, f in enumerate(fields):
+        opts: dict[str, Any] = {"field": f"spec.{f}"}
+        if k == 0:
+            if by_label:
+                opts = {"labels": {"l": "1"}}
+            script: list = []
+            for _ in range(rng.choice([1, 1, 2, 3])):
+                if rng.random() < 0.75:
+                    script.append(["temp", long_d])
+                    fail_time += long_d + 1.0 + (60.0 if long_d > 600 else 0.0)
+                else:
+                    script.append("arb")
+                    opts["backoff"] = 8.0
+                    fail_time += 9.0
+        else:
+            script = []
+            for _ in range(rng.choice([0, 0, 1, 1, 2])):
+                a = rng.choice([["temp", 0.5], ["temp", 1.0], ["temp", 2.0], "arb", "perm"])
+                script.append(a)
+                fail_time += 3.0
+            if rng.random() < 0.2:
+                opts["retries"] = rng.choice([1, 2])
+            if rng.random() < 0.3:
+                opts["backoff"] = rng.choice([0.5, 1.0])
+        handlers.append({"kind": "update", "id": f"h{f}", "opts": opts, "script": script, "default": "ok", "record_body": True})
+    if rng.random() < 0.15:
+        handlers.append({"kind": "resume", "id": "r", "opts": {}, "script": [rng.choice(["ok", ["temp", 1.0]])], "default": "ok", "record_body": True})
+        fail_time += 2.0
+    deletion = rng.random() < 0.12
+    if deletion:
+        handlers.append({"kind": "delete", "id": "d", "opts": {"backoff": 1.0}, "script": [rng.choice([["temp", 1.0], "arb"]) for _ in range(rng.choice([0, 1]))],
+                         "default": "ok", "record_body": True})
+        fail_time += 4.0
+    rng.shuffle(handlers)
+    spec0 = {f: 0 for f in fields}
+    body0: dict[str, Any] = {"spec": dict(spec0), "metadata": {"labels": {"l": "1"}}}
+    sc: dict[str, Any] = {"seed": i, "lifecycle": rng.choice(["asap", "one_by_one", "all_at_once"]), "handlers": handlers,
+                          "settings": {"execution.default_backoff": rng.choice([1.0, 2.0]), "watching.server_timeout": 4096.0,
+                                       "watching.reconnect_backoff": 0.125},
+                          "echo_delay": {"default": rng.choice([0.0, 0.0, 0.0, 0.015625, 0.0625])}, "family": "deselect"}
+    tl: list[list] = []
+    if rng.random() < 0.4:
+        body0["metadata"]["annotations"] = {LAST_HANDLED: json.dumps({"spec": spec0, "metadata": {"labels": {"l": "1"}}}, separators=(",", ":")) + "\n"}
+        sc["objects"] = [{"name": "a", "body": body0}]
+        t = 1.0
+    else:
+        tl.append([1.0, "create", "a", body0])
+        t = 2.0
+    down = False
+
+    def restart(at: float, back: float) -> None:
+        how = rng.choice(["stop", "kill", "kill", "killw"])
+        tl.append([at, how] + ([rng.choice(["before", "after"])] if how == "killw" else []))
+        tl.append([back, "start"])
+
+    # 1. the victim's field changes (sometimes another one with it): the victim is selected and fails
+    first: dict[str, Any] = {"x": 1}
+    if rng.random() < 0.25:
+        first[rng.choice(fields[1:])] = 1
+    t += rng.choice([0.5, 1.0])
+    tl.append([t, "edit", "a", {"spec": dict(first)}])
+    t1 = t
+    # 2. before its retry: its field is reverted (its label flipped), other fields change
+    t += rng.choice([0.25, 0.5, 1.0, 2.0, 3.0])
+    others = [f for f in fields[1:] if rng.random() < 0.7] or [fields[1]]
+    second: dict[str, Any] = {"spec": {"x": 0, **{f: 2 for f in others}}}
+    if by_label:
+        second = {"spec": {f: 2 for f in others}, "metadata": {"labels": {"l": "0"}}}
+        if rng.random() < 0.5:
+            second["spec"]["x"] = 0
+    tl.append([t, "edit", "a", second])
+    t2 = t
+    r = rng.random()
+    if r < 0.35:          # the change is made while the operator is down
+        restart(t1 + 0.125, t2 + rng.choice([0.5, 2.0, 5.0, 20.0]))
+        down = True
+        t = tl[-1][0]
+    elif r < 0.5:         # the operator goes away right after it (possibly in the middle of the closing write)
+        ts = t2 + rng.choice([0.0, 0.015625, 0.03125, 0.5, 1.5])
+        restart(ts, ts + rng.choice([0.5, 2.0, 5.0]))
+        down = True
+        t = tl[-1][0]
+    # 3. afterwards
+    for _ in range(rng.choice([0, 1, 1, 2])):
+        t += rng.choice([0.015625, 0.5, 2.0, 4.0, 9.0])
+        what = rng.choice(["other", "other", "other", "victim", "both", "label"])
+        v = 3 + len(tl)
+        if what == "other":
+            tl.append([t, "edit", "a", {"spec": {rng.choice(fields[1:]): v}}])
+        elif what == "victim":
+            tl.append([t, "edit", "a", {"spec": {"x": v}, **({"metadata": {"labels": {"l": "1"}}} if by_label else {})}])
+        elif what == "both":
+            tl.append([t, "edit", "a", {"spec": {"x": v, rng.choice(fields[1:]): v}}])
+        else:
+            tl.append([t, "edit", "a", {"metadata": {"labels": {"l": rng.choice(["0", "1"])}}}])
+    if not down and rng.random() < 0.2:
+        ts = t + rng.choice([0.5, 3.0])
+        restart(ts, ts + rng.choice([0.5, 5.0]))
+        t = tl[-1][0]
+    if deletion:
+        t += rng.choice([0.5, 3.0, 6.0])
+        tl.append([t, "delete", "a"])
+    sc["timeline"] = tl
+    t = max(e[0] for e in tl)
+    sc["t_silence"] = t
+    sc["tq"] = TQ
+    sc["end"] = t + 48.0 + 1.5 * fail_time + 2 * TQ
+    return sc
+
+
 # ---- running ------------------------------------------------------------------------------------------------------
 
 def _corpus() -> list[tuple[str, dict]]:
@@ -1205,6 +1387,18 @@ def _evaluate(ctx: Ctx, scenarios: list[dict], tie: bool = True) -> None:
         how = sorted({m.get("how") for m in tr["marks"] if m["what"] == "killed"} - {None})
         ctx.count("class", o["class"])
         ctx.count("outstanding", o.get("outstanding"))
+        if sc.get("family"):
+            ctx.count("family_class", f"{sc['family']}:{o['class']}")
+        # passes in which the object carries the UNFINISHED record, same purpose, of a handler that is not selected (any more)
+        for c in tr["cycles"]:
+            p = c.get("pcc")
+            if p and p["reason"] in KINDS and p["selected"] and p.get("outcomes") is not None:
+                stale = [h for h in p["owned"] if h not in p["selected"] and p["P"].get(h) and not (p["P"][h]["success"] or p["P"][h]["failure"])
+                         and p["P"][h].get("purpose") in (None, p["reason"])]
+                if stale:
+                    ctx.count("unselected_unfinished_same_purpose", f"{p['reason']}: closed={bool(p.get('closed'))}")
+        if o.get("field_selected"):
+            ctx.count("field_handlers_selected_for_the_outstanding_change", o["field_selected"])
         for k in kinds:
             ctx.count("restart_kind", k)
         for h in how:
@@ -1276,6 +1470,9 @@ def run(ctx: Ctx) -> None:
     scenarios += [gen_scenario(ctx.rng, ctx.seed * 100000 + i) for i in range(n)]
     ctx.count("scenarios", "corpus", len(scenarios) - n)
     ctx.count("scenarios", "generated", n)
+    nd = max(40, n // 4)
+    scenarios += [gen_deselect(ctx.rng, 80_000_000 + ctx.seed * 100000 + i) for i in range(nd)]
+    ctx.count("scenarios", "generated-deselect", nd)
     chunk = 1000
     for k in range(0, len(scenarios), chunk):
         _evaluate(ctx, scenarios[k:k + chunk])
@@ -1290,6 +1487,7 @@ def search(ctx: Ctx, broken: list) -> None:
         if sc:
             scenarios.append(sc)
     n = ctx.budget(1200, 8000)
+    scenarios += [gen_deselect(ctx.rng, 83_000_000 + ctx.seed * 100000 + i) for i in range(n // 4)]
     scenarios += [gen_scenario(ctx.rng, 3_000_000 + ctx.seed * 100000 + i) for i in range(n)]
     _evaluate(ctx, scenarios, tie=False)
 
